@@ -187,7 +187,9 @@ def inject_loop_contracts(body, contracts, nloops):
             # the frame of the loop as far as plain local variables are concerned is read from the loop's own text: every
             # identifier the body (or the header) assigns that is not declared inside the body and is not a member access
             ctext = ctext.replace('@LOCALS@', ', '.join(loop_assigned_locals(body, kind, pos)) or 'verif_exc')
-        body = body[:pos] + '\n' + ctext + '\n' + body[pos:]
+        # (the contract text names locals of the loop; when an edit renames or removes them the unit no longer compiles: the pipeline then
+        #  re-compiles with -DVERIF_NO_LOOP_CONTRACTS and falls back to a bounded check of the enclosing contract, vf/pipeline.py)
+        body = body[:pos] + '\n#ifndef VERIF_NO_LOOP_CONTRACTS\n' + ctext + '\n#endif\n' + body[pos:]
         # cbmc 6.11 silently drops a loop contract attached to `for (;;)`; `while (1)` is the same loop
         head = re.search(r'for\s*\(\s*;\s*;\s*\)\s*$', body[:pos])
         if kind == 'for' and head:
